@@ -1251,7 +1251,11 @@ class SupportIndex(object):
 
         # libsmi: TODO: use the SYNTAX value of the correspondent
         #               OBJECT-TYPE invocation
-        p[0] = isinstance(p[1], tuple) and p[1][1][0] or p[1]
+        if isinstance(p[1], tuple):
+            p[0] = p[1][1][0]
+
+        else:
+            p[0] = p[1]
 
     # for Index rule
     @staticmethod
